@@ -332,8 +332,9 @@ class Slicer:
         return any(a[0] not in ("lit",) for a in d)
 
     # ---------------------------------------------------------------- closure to roots
-    def expand(self, atoms):
+    def expand(self, atoms, _guard=None):
         """transitive closure of atoms down to roots; returns set of root atoms"""
+        guard = _guard if _guard is not None else set()
         roots = set()
         seen = set()
         stack = list(atoms)
@@ -381,11 +382,21 @@ class Slicer:
                         for ds in dss:
                             stack.extend(ds)
             elif t == "len":
-                inner = self.expand([a[1]])
+                if a in guard:
+                    continue
+                guard.add(a)
+                if a[1][0] == "s":
+                    # the length of a field does not depend on element writes made in this function
+                    roots.add(("len", ("self",) + a[1][1:]))
+                    continue
+                inner = self.expand([a[1]], guard)
                 for r in inner:
                     roots.add(("len", r) if r[0] != "len" else r)
             elif t == "enum":
-                inner = self.expand([a[1]])
+                if a in guard:
+                    continue
+                guard.add(a)
+                inner = self.expand([a[1]], guard)
                 for r in inner:
                     roots.add(("enum", r) + a[2:])
             else:
